@@ -230,4 +230,45 @@ def trigger (g : Gen) (i : Nat) (ptsT ptsX : List Nat) : Gen × Bool :=
 
 end Gen
 
+/-- histories of a whole generator: `get_batch` (with the reshuffle oracles of its stores) and
+    `trigger_rar(i, …)` (with the chosen candidate points for its stores) -/
+inductive GenOp where
+  | draw (oT oX : List Nat)
+  | trigger (i : Nat) (ptsT ptsX : List Nat)
+deriving Repr
+
+namespace Gen
+
+def applyOp (g : Gen) : GenOp → Gen
+  | .draw oT oX => (g.getBatch oT oX).1
+  | .trigger i pT pX => (g.trigger i pT pX).1
+
+def runOps (g : Gen) : List GenOp → Gen
+  | [] => g
+  | op :: ops => runOps (g.applyOp op) ops
+
+/-- the oracles honour their contracts along the history -/
+def validOps (g : Gen) : List GenOp → Bool
+  | [] => true
+  | .draw oT oX :: ops =>
+    (!g.cfg.kind.hasT || g.t.oracleOk oT) && (!g.cfg.kind.hasX || g.x.oracleOk oX) &&
+      validOps (g.applyOp (.draw oT oX)) ops
+  | .trigger i pT pX :: ops =>
+    (pT.length == g.cfg.selT) && (pX.length == g.cfg.selX) && validOps (g.applyOp (.trigger i pT pX)) ops
+
+/-- the time points added by the steps that took place -/
+def addedT (g : Gen) : List GenOp → List Nat
+  | [] => []
+  | .draw oT oX :: ops => addedT (g.applyOp (.draw oT oX)) ops
+  | .trigger i pT pX :: ops =>
+    (if (g.trigger i pT pX).2 then pT else []) ++ addedT (g.applyOp (.trigger i pT pX)) ops
+
+def addedX (g : Gen) : List GenOp → List Nat
+  | [] => []
+  | .draw oT oX :: ops => addedX (g.applyOp (.draw oT oX)) ops
+  | .trigger i pT pX :: ops =>
+    (if (g.trigger i pT pX).2 then pX else []) ++ addedX (g.applyOp (.trigger i pT pX)) ops
+
+end Gen
+
 end Jinns.Rar
